@@ -95,6 +95,8 @@ type udpSrv struct {
 	announce [][]byte
 	reqs     int
 	unscript int
+	sent     int           // scripted replies sent
+	hold     chan struct{} // when set: the next reply waits until it is closed (at most 2 s)
 }
 
 func (s *udpSrv) set(connect, announce [][]byte) {
@@ -103,7 +105,15 @@ func (s *udpSrv) set(connect, announce [][]byte) {
 	s.announce = append([][]byte(nil), announce...)
 	s.reqs = 0
 	s.unscript = 0
+	s.sent = 0
+	s.hold = nil
 	s.mu.Unlock()
+}
+
+func (s *udpSrv) nsent() int {
+	s.mu.Lock()
+	defer s.mu.Unlock()
+	return s.sent
 }
 
 func (s *udpSrv) stats() (int, int) {
@@ -145,7 +155,20 @@ func (s *udpSrv) loop() {
 		for i := 4; i < 8 && i < len(out); i++ {
 			out[i] ^= tid[i-4]
 		}
+		s.mu.Lock()
+		hold := s.hold
+		s.hold = nil
+		s.mu.Unlock()
+		if hold != nil {
+			select {
+			case <-hold:
+			case <-time.After(2 * time.Second):
+			}
+		}
 		s.pc.WriteTo(out, from)
+		s.mu.Lock()
+		s.sent++
+		s.mu.Unlock()
 	}
 }
 
